@@ -214,11 +214,22 @@ def build_optimized_pattern(choices: list[ChoiceChoice], repeat: str = "") -> st
     if not choices:
         return ""
 
+    # Ordered choice commits to the first alternative that matches, so literals
+    # longer than one character keep their place. Only runs of consecutive
+    # single-character alternatives (which all consume exactly one character
+    # when they match) are merged into one character class.
+    parts: list[str] = []
     char_class_parts: list[str] = []  # for single-char literals
     ranges: list[tuple[str, str]] = []  # for character ranges
-    multi_sensitive: list[str] = []  # for multi-char sensitive literals
-    insensitive_parts: list[str] = []  # for insensitive literals (scoped flag)
     unicode_props: list[str] = []  # for UnicodeProperty patterns
+
+    def flush_single_character_choices() -> None:
+        parts.extend(unicode_props)
+        if char_class_parts or ranges:
+            parts.append(_optimize_char_class(char_class_parts, ranges))
+        unicode_props.clear()
+        char_class_parts.clear()
+        ranges.clear()
 
     for choice in choices:
         match choice:
@@ -228,25 +239,19 @@ def build_optimized_pattern(choices: list[ChoiceChoice], repeat: str = "") -> st
                 char_class_parts.append(val.upper())
                 char_class_parts.append(val.lower())
             case ChoiceLiteral(value=val, case=ChoiceCase.INSENSITIVE):
-                insensitive_parts.append(f"(?i:{re.escape(val)})")
+                flush_single_character_choices()
+                parts.append(f"(?i:{re.escape(val)})")
             case ChoiceLiteral(value=val, case=ChoiceCase.SENSITIVE) if len(val) == 1:
                 char_class_parts.append(val)
             case ChoiceLiteral(value=val, case=ChoiceCase.SENSITIVE):
-                multi_sensitive.append(re.escape(val))
+                flush_single_character_choices()
+                parts.append(re.escape(val))
             case ChoiceRange(start, end):
                 ranges.append((start, end))
             case _:
                 raise ValueError(f"Unrecognized choice: {choice}")
 
-    parts: list[str] = []
-    if multi_sensitive:
-        parts.extend(multi_sensitive)
-    if insensitive_parts:
-        parts.extend(insensitive_parts)
-    if unicode_props:
-        parts.extend(unicode_props)
-    if char_class_parts or ranges:
-        parts.append(_optimize_char_class(char_class_parts, ranges))
+    flush_single_character_choices()
 
     if not parts:
         return ""
